@@ -223,6 +223,10 @@ class Run:
         if rc != 0:
             self.harness_err = out
             return False
+        rc, out = self.testbin_build(ov)
+        if rc != 0:
+            self.harness_err = out
+            return False
         if any(a.get("race") for a in self.spec.get("areas", [])):
             with Lock("gobuild"):
                 rc, out = sh(["go", "build", "-race", "-tags", "verif", "-overlay", ovp, "-o", NVH + "-race", "."], cwd=src, timeout=1800)
@@ -230,6 +234,26 @@ class Run:
                 self.harness_err = out
                 return False
         return True
+
+    def testbin_build(self, ov):
+        """Areas that must run inside a package of the repository (package main cannot be imported)
+        name binary="<pkg>.test" ("main" = the root package, '/' written as '__').  The harness file
+        overlay/<pkg>_test.go.txt is injected as <pkgdir>/zz_verif_test.go and compiled with `go test -c`
+        into build/nvh_<pkg>.test, together with all export overlays.  A test binary that does not
+        build is a broken correspondence like the harness itself."""
+        for b in sorted({a["binary"] for a in self.spec.get("areas", []) if a.get("binary")}):
+            pkg = b[:-len(".test")]
+            pkgdir = REPO if pkg == "main" else os.path.join(REPO, pkg.replace("__", "/"))
+            ov2 = dict(ov)
+            ov2[os.path.join(pkgdir, "zz_verif_test.go")] = os.path.join(VERIF, "overlay", pkg + "_test.go.txt")
+            ovp = os.path.join(BUILD, "overlay_%s_test.json" % pkg)
+            json.dump({"Replace": ov2}, open(ovp, "w"))
+            with Lock("gobuild"):
+                rc, out = sh(["go", "test", "-c", "-vet=off", "-tags", "verif", "-overlay", ovp,
+                              "-o", testbin_path(b), "."], cwd=pkgdir, timeout=900)
+            if rc != 0:
+                return rc, out
+        return 0, ""
 
     # ---------------------------------------------------------------- correspondence
     def run_area(self, area):
@@ -265,8 +289,13 @@ class Run:
             d = os.path.join(self.rundir, name, "%02d" % k)
             shutil.rmtree(d, ignore_errors=True)
             os.makedirs(d)
-            cmd = [NVH + ("-race" if area.get("race") else ""), name, "-tier", self.tier, "-out", d] + args + area.get("args", [])
-            procs.append((label, d, subprocess.Popen(cmd, stdout=subprocess.PIPE, stderr=subprocess.STDOUT, text=True, env=GOENV)))
+            hargs = [name, "-tier", self.tier, "-out", d] + args + area.get("args", [])
+            if area.get("binary"):
+                # a `go test -c` binary: TestVerifHarness reads the nvh arguments from NVH_ARGS
+                cmd, env = [testbin_path(area["binary"]), "-test.run", "^TestVerifHarness$"], dict(GOENV, NVH_ARGS=" ".join(hargs))
+            else:
+                cmd, env = [NVH + ("-race" if area.get("race") else "")] + hargs, GOENV
+            procs.append((label, d, subprocess.Popen(cmd, stdout=subprocess.PIPE, stderr=subprocess.STDOUT, text=True, env=env)))
             if len(procs) % 16 == 0:
                 for _, _, p in procs:
                     p.wait()
@@ -441,6 +470,10 @@ class Run:
         os.makedirs(evdir, exist_ok=True)
         with open(os.path.join(evdir, self.pid + ".json"), "w") as f:
             json.dump(ev, f, indent=1)
+
+
+def testbin_path(binary):
+    return os.path.join(BUILD, "nvh_" + binary)
 
 
 def tail_line(path):
